@@ -117,10 +117,14 @@ Section Model.
       | (None, d') => if skip then (None, d') else inval d' a window'
       end.
 
-  (* DelAttrMethod: the default a deletion re-installs *)
+  (* DelAttrMethod (as of 8d388fa): `default = attr_spec.lookup_default_value(
+     type(self))` for a managed attribute that is not masked, MISSING otherwise;
+     the (mutate-safe copy of the) default is what a deletion re-installs *)
   Definition resettable (a : name) : option V := default_of cd a.
 
-  (* methods/core.py:DelAttrMethod.__delattr__ *)
+  (* methods/core.py:DelAttrMethod.__delattr__: frozen guard; default looked up
+     unless force; `if default is MISSING:` raw delete (+ invalidate_attrs), else
+     mutate_attr(value=default, inplace=True, force=True, skip_invalidation=…) *)
   Definition delattr_gen (mut : dict -> name -> V -> bool -> bool -> bool -> bool -> bool -> outcome)
              (inval : dict -> name -> bool -> outcome)
              (d : dict) (a : name) (force skip window : bool) : outcome :=
